@@ -72,7 +72,9 @@ def check_case(f, var, d, rng):
     except Exception:
         return []          # no design (a C03 finding class): nothing for C10 to judge
     for new, seen, U in new_frames(d, var, rng):
-        for mode in MODES:
+        # the same frame object under every mode, and again under the stricter modes after the silent one (the policy is applied at
+        # every evaluation, whatever was evaluated before)
+        for mode in MODES + ["error", "warning"]:
             formulae.config["EVAL_UNSEEN_CATEGORIES"] = mode
             for part in ("common", "group"):
                 m = getattr(dm, part)
@@ -101,6 +103,17 @@ def check_case(f, var, d, rng):
                     continue
                 if warned != (mode == "warning"):
                     res.append((f, tag, f"warned={warned} in mode {mode}"))
+                    continue
+                # straight afterwards, the same frame object in 'error' mode
+                formulae.config["EVAL_UNSEEN_CATEGORIES"] = "error"
+                try:
+                    m.evaluate_new_data(new)
+                    res.append((f, tag, "the same frame evaluated again in 'error' mode did not raise"))
+                    continue
+                except ValueError:
+                    pass
+                except Exception as ex:
+                    res.append((f, tag, f"the same frame evaluated again in 'error' mode raised {type(ex).__name__}"))
                     continue
                 formulae.config["EVAL_UNSEEN_CATEGORIES"] = "error"
                 ref = m.evaluate_new_data(seen)
@@ -208,7 +221,8 @@ def PROOFS():
     return [("vf.contracts.config_c", config_c.FUNCTIONS), ("vf.contracts.variable_c", [f for f in variable_c.FUNCTIONS if f.endswith("eval_new_data_categoric")] +
              ["formulae.terms.variable.Variable.eval_new_data"]),        # the dispatcher: a categorical variable always goes through the policy
             ("vf.contracts.terms_c", ["formulae.terms.terms.GroupSpecificTerm.eval_new_data"]),
-            ("vf.contracts.matrices_c", ["formulae.matrices.GroupEffectsMatrix.evaluate_new_data"])]
+            ("vf.contracts.matrices_c", ["formulae.matrices.GroupEffectsMatrix.evaluate_new_data", "formulae.matrices.CommonEffectsMatrix.evaluate_new_data"]),
+            ("vf.contracts.utils_c", ["formulae.utils.get_interaction_matrix"])]
 
 
 def run(report, findings):
